@@ -97,6 +97,24 @@ def _tree_bit_equal(a, b):
     return len(la) == len(lb) and all(gfi.bit_equal(np.asarray(x), np.asarray(y)) for x, y in zip(la, lb))
 
 
+def _tree_close(a, b, rel=2e-5):
+    import jax
+
+    la, lb = jax.tree_util.tree_leaves(a), jax.tree_util.tree_leaves(b)
+    if len(la) != len(lb):
+        return False
+    for x, y in zip(la, lb):
+        x, y = np.asarray(x), np.asarray(y)
+        if x.shape != y.shape or x.dtype != y.dtype:
+            return False
+        if x.dtype.kind == "f":
+            if not np.all(np.abs(x.astype(np.float64) - y.astype(np.float64)) <= rel * (1.0 + np.abs(y.astype(np.float64)))):
+                return False
+        elif not np.array_equal(x, y):
+            return False
+    return True
+
+
 def _under(p, prefixes):
     return any(p[: len(q)] == q for q in prefixes)
 
@@ -169,7 +187,11 @@ def _bracket(ctx, stepper, key, host_seed, tr0, trA, log_alpha_ref, tol_w, d, kn
         if base_events is not None and not _same_deliveries(base_events, ev):
             ctx.count("bracket_skipped_callback_order_differs")
             return False
-        if not bool(np.asarray(acc)) or not _tree_bit_equal(t, trA):
+        if bool(np.asarray(acc)) and not _tree_bit_equal(t, trA) and _tree_close(t, trA):
+            # the same accepted proposal up to float32 rounding: two executions of one compiled program are not
+            # promised to be bit-identical by C09 (a rejected move IS compared bitwise with the input, below)
+            ctx.count("bracket_accepted_trace_equal_up_to_rounding")
+        elif not bool(np.asarray(acc)) or not _tree_bit_equal(t, trA):
             ctx.violation(
                 f"{kname}|rejects-below-reference-acceptance-probability",
                 {**d, "u": lo, "reference_alpha": alpha, "accept_flag": bool(np.asarray(acc))},
